@@ -366,10 +366,7 @@ class msp430_sreg_arg(reg_noarg, msp430_arg):
             if e == SR:
                 self.expr = ExprInt(8, size)
             elif e == R3:
-                if self.parent.size.value == 0:
-                    self.expr = ExprInt(0xffff, size)
-                else:
-                    self.expr = ExprInt(0xff, size)
+                self.expr = ExprInt((1 << size) - 1, size)
             elif e == PC:
                 self.expr = ExprInt(self.parent.off_s.value, size)
             else:
@@ -387,10 +384,11 @@ class msp430_sreg_arg(reg_noarg, msp430_arg):
             self.value = self.reg_info.expr.index(e)
         elif isinstance(e, ExprInt):
             v = int(e)
-            if v == 0xffff and self.parent.size.value == 0:
-                self.parent.a_s.value = 0b11
-                self.value = 3
-            elif v == 0xff and self.parent.size.value == 1:
+            # Format II instructions without a B/W bit are word sized
+            size = 16
+            if hasattr(self.parent, 'size'):
+                size = [16, 8][self.parent.size.value]
+            if v == (1 << size) - 1:
                 self.parent.a_s.value = 0b11
                 self.value = 3
             elif v == 2:
